@@ -350,7 +350,11 @@ impl Literal {
                     .iter()
                     .map(|(k, v)| (k.clone(), *v as u64))
                     .collect();
-                let size = compile::resolve_const_expr_unsigned(size_expr, &const_sizes_u64);
+                let size = compile::resolve_const_expr_unsigned(
+                    size_expr,
+                    &const_sizes_u64,
+                    crate::circuit::USIZE_BITS,
+                );
                 let ty_size = ty.size_in_bits_for_defs(checked, const_sizes);
                 let mut elems = vec![];
                 let mut i = 0;
